@@ -177,13 +177,17 @@ def iter_find_needle(
     saved = b""
     if start_offset is not None:
         fp.seek(start_offset)
+    next_pos = fp.tell()
     while True:
-        pos = fp.tell()
+        pos = next_pos
         if max_offset and pos > max_offset:
             break
+        # the consumer may have moved the file position while handling a yielded offset
+        fp.seek(pos)
         block = fp.read(io.DEFAULT_BUFFER_SIZE)
         if not block:
             break
+        next_pos = pos + len(block)
         d = saved + block
         p = -1
         while True:
